@@ -151,6 +151,23 @@ theorem stream_appends_keep_prefix (P : Policy) (st : SsSt) (v r s c : Nat) (u :
     (st r).data <+: (((SsOp.buffer r u).step P st).1 r).data := by
   refine ⟨?_, ?_, ?_, ?_, ?_⟩ <;> simp [SsOp.step]
 
+/-- Operations whose argument lies inside the container's own storage (an item of the array by `const&`,
+a sub-range / C string / view of the string's or stream's own buffer): the value of the argument is the
+one before the call, and the old content stays in front. -/
+theorem own_storage_arguments_keep_prefix {α : Type} (d : α) (P : Policy) (ast : ArrSt α) (sst : StrSt)
+    (hs : StrInv sst) (tst : SsSt) (v r i off n : Nat) :
+    (ast r).data <+: (((ArrOp.pushSelf r i).step d ast).1 r).data ∧
+    (∀ x, (ast r).data[i]? = some x → (((ArrOp.pushSelf r i).step d ast).1 r).data = (ast r).data ++ [x]) ∧
+    (((StrOp.appOwn v r off n).step sst).1 r).data =
+      (sst r).data ++ (if v = 0 then ownSlice (sst r).data off n else ownCStr (sst r).data off) ∧
+    (((SsOp.appOwn v r off n).step P tst).1 r).data =
+      (tst r).data ++ (if v < 3 then ownSlice (tst r).data off n else if v < 5 then ownCStr (tst r).data off else (tst r).data) := by
+  refine ⟨?_, ?_, ?_, ?_⟩
+  · simp only [ArrOp.step]; cases (ast r).data[i]? <;> simp
+  · intro x hx; simp [ArrOp.step, hx]
+  · simp [StrOp.step, StringM.write_data _ _ (hs r)]
+  · simp only [SsOp.step]; split <;> (try split) <;> simp
+
 /-! ### Capacity changes never lose or duplicate elements -/
 
 theorem array_capacity_changes_keep_content {α : Type} (a : ArrayM α) (n : Nat) :
